@@ -139,6 +139,10 @@ def gen_plan(seed, tier):
             src = rng.choice([HEAD, HEAD, S1, L1, L2])
             tgt = {HEAD: rng.choice([A, B, C_, S1, AB]), S1: B, L1: L2,
                    L2: L1}[src]
+            if backend == "files" and rng.random() < 0.15:
+                # a symbolic ref under a name that may collide, as directory
+                # versus file, with a plain ref (loose or packed)
+                src, tgt = rng.choice([(A, C_), (AB, B)])
             ops.append({"k": "symref", "name": src, "target": tgt})
         elif r < 0.55:
             ops.append({"k": "symref", "name": rng.choice([HEAD, HEAD, S1]),
@@ -156,7 +160,8 @@ def gen_plan(seed, tier):
         elif r < 0.765 and backend == "files":
             # empty directories left where a ref may be created later (a
             # crashed writer, another tool): they hold no ref
-            ops.append({"k": "stale_dirs", "name": rng.choice([A, B, T]),
+            ops.append({"k": "stale_dirs",
+                        "name": rng.choice([A, B, T, S1, L1]),
                         "sub": rng.choice(["x", "x/y", "x/y/z"])})
         elif r < 0.79:
             ops.append({"k": "import", "base": "refs/remotes/o",
@@ -539,11 +544,16 @@ def run_plan(plan):
             elif k == "symref":
                 try:
                     c.set_symbolic_ref(nb, op["target"].encode())
+                    if m.conflict(name):
+                        viol("df-conflict-accepted/symref",
+                             f"{desc}: {name} collides with an existing ref")
                     m.d[name] = SYM + op["target"]
                 except REFUSED as e:
                     if not m.conflict(name):
                         viol(f"model-mismatch/symref/raised-{type(e).__name__}",
                              f"{desc}: {e!r}")
+                    else:
+                        stats["probe:df_conflict_refused"] = 1
 
         def _stale(op, c, m, desc):
             from dulwich.file import FileLocked as FL
